@@ -158,7 +158,7 @@ def encode(v, depth=0):
         if n in ('_ctx', 'rng'):
             try:
                 x = getattr(v, n)
-                fields[n] = None if x is None else {'$cls': type(x).__name__}
+                fields[n] = None if x is None else {'$cls': '*'}
             except AttributeError:
                 pass
             continue
